@@ -147,10 +147,10 @@ int main(int argc, char** argv)
 	}
 	g_sparse_orders = mc::quick();
 	// (the last three: intervals narrower than any absolute width threshold, still resolved by doubles because they sit at the origin)
-	std::vector<std::pair<double, double>> ivs = {{-1, 1}, {0, 1}, {2, 7}, {-1e3, 1e-3}, {1e6, 1e6 + 1}, {1, -1}, {7, 2}, {0, 1e-20}, {3e-27, 7e-27}, {-1e-300, 1e-300}};
+	std::vector<std::pair<double, double>> ivs = {{-1, 1}, {0, 1}, {2, 7}, {-1e3, 1e-3}, {1e6, 1e6 + 1}, {1, -1}, {7, 2}, {0, 1e-20}, {3e-27, 7e-27}, {-1e-300, 1e-300}, {1, 3}, {-5, -3}, {0.5, 1.5}, {3, 1}};
 	mc::alphabet("orders", orders.size());
 	mc::alphabet("intervals", ivs.size());
-	mc::bound("rule", "every order n=1.." + std::to_string(nfull) + " (complete) plus every " + std::string(mc::thorough() ? "5th" : "37th") + " order and the powers of two with their neighbours up to 4096, x 10 intervals (shifted, far from the origin, reversed, narrower than 1e-16); all ordered pairs of orders up to 32/64 computed back to back (identical bits whatever was computed before); per rule: node order/inclusion/symmetry, weight sign/symmetry/sum, exactness on the Legendre basis and on monomials for every degree k<=min(2n-1,60), agreement with a long-double Newton reference started from Tricomi's guess, identical bits from the three Integrate_Gauss_Legendre overloads, length mismatch rejected; non-trivial = rules with n>=2");
+	mc::bound("rule", "every order n=1.." + std::to_string(nfull) + " (complete) plus every " + std::string(mc::thorough() ? "5th" : "37th") + " order and the powers of two with their neighbours up to 4096, x 14 intervals (shifted, far from the origin, reversed, narrower than 1e-16, of width exactly 1 and 2 away from the origin); all ordered pairs of orders up to 32/64 computed back to back (identical bits whatever was computed before); per rule: node order/inclusion/symmetry, weight sign/symmetry/sum, exactness on the Legendre basis and on monomials for every degree k<=min(2n-1,60), agreement with a long-double Newton reference started from Tricomi's guess, identical bits from the three Integrate_Gauss_Legendre overloads, length mismatch rejected; non-trivial = rules with n>=2");
 	unsigned long long unit = 0;
 	// larger orders first so that shards are balanced
 	std::sort(orders.begin(), orders.end(), std::greater<unsigned>());
